@@ -44,6 +44,10 @@ STR_RSTRIP = ufun('STR_RSTRIP', Str, Str)
 STR_REPLACE = ufun('STR_REPLACE', Str, Str, Str, Str)
 STR_FIND = ufun('STR_FIND', Str, Str, Int, Int)
 STR_RFIND = ufun('STR_RFIND', Str, Str, Int, Int, Int)
+STR_SPLIT_N = ufun('STR_SPLIT_N', Str, Str, Int)
+STR_SPLIT_PARTS = ufun('STR_SPLIT_PARTS', Str, Str, ArrIntS)
+STR_SPLITLINES_N = ufun('STR_SPLITLINES_N', Str, Int)
+STR_SPLITLINES_PARTS = ufun('STR_SPLITLINES_PARTS', Str, ArrIntS)
 STR_ORD = ufun('STR_ORD', Str, Int)
 STR_CHR = ufun('STR_CHR', Int, Str)
 PARSE_FLOAT_OK = ufun('PARSE_FLOAT_OK', Str, Bool)
@@ -437,6 +441,11 @@ def py_list(ip, args, frame):
                 els = z3.Lambda([j], z3.Select(z3.Select(h.VAL, ref), z3.Select(keys, j)))
             nref, ctx.heap = ctx.heap.new_list(n, els)
             return S(VList(nref))
+    if isinstance(src, S) and resolve_kind(ip, src, ('list', 'dict', 'str')) == 'list':
+        ref = z3.simplify(V.lref(src.t))
+        h = ctx.heap
+        nref, ctx.heap = h.new_list(h.llen(ref), h.lels(ref))
+        return S(VList(nref))
     seq = iteration(ip, src)
     if seq[0] == 'concrete':
         return S(ctx.alloc_list(seq[1]))
@@ -868,9 +877,13 @@ def str_method(ip, s, name, args):
             sep = sarg(0)
             if ctx.branch(z3.Length(sep) == 0):
                 raise_('ValueError', 'empty separator')
-        n = ctx.fresh('nsplit', Int)
-        parts = ctx.fresh('split', ArrIntS)
-        ctx.assume(n >= (1 if name == 'split' else 0))
+        if name == 'split' and args:
+            n, parts = STR_SPLIT_N(s, sep), STR_SPLIT_PARTS(s, sep)
+        elif name == 'split':
+            n, parts = STR_SPLIT_N(s, z3.StringVal('')), STR_SPLIT_PARTS(s, z3.StringVal(''))
+        else:
+            n, parts = STR_SPLITLINES_N(s), STR_SPLITLINES_PARTS(s)
+        ctx.assume(n >= (1 if (name == 'split' and args) else 0))
         j = z3.Int('j!split')
         nref, ctx.heap = ctx.heap.new_list(n, z3.Lambda([j], VStr(z3.Select(parts, j))))
         return S(VList(nref))
